@@ -2732,3 +2732,7 @@ mod tests {
         assert_matches!(protocol_state.acquire_free_packet_id(1), Err(GneissError::InternalStateError(_)));
     }
 }
+
+#[cfg(feature = "verif")]
+#[path = "verif_protocol.rs"]
+pub(crate) mod verif_protocol;
